@@ -102,7 +102,11 @@ def gen_block(rng, level, nlevels, depth, budget, in_call=False, nosusp=False):
                 m = rng.randint(0, level) if rng.random() < 0.5 else level
             else:
                 m = 3      # a monitor that never drives anything (levels use 0..2): always inactive
-            out.append(("O", m, rng.randint(10, 99)))
+            if rng.random() < 0.15:
+                # oob() called, a real suspension, then the call awaited
+                out.append(("OD", m, rng.randint(10, 99), rng.randint(100, 199)))
+            else:
+                out.append(("O", m, rng.randint(10, 99)))
         elif r < 0.40:
             out.append(("S", rng.randint(100, 199)))
         elif r < 0.52 and level + 1 < nlevels:
@@ -274,16 +278,23 @@ class Real:
     def make_oob(self):
         M, olog = self.M, self.olog
 
-        async def OOB(m, d):
+        async def wait(m, d, p):
             olog.append(("oobcall", m, d, M[m].state))
             try:
-                x = await M[m].oob(d)
+                x = await p
             except BaseException as e:
                 self.arrived.append(e)
                 olog.append(("oobexc", m, mp.canon_exc(e)))
                 raise
             olog.append(("oobret", m, mp.cv(x)))
             return x
+
+        def OOB(m, d):
+            return wait(m, d, M[m].oob(d))
+
+        # ("OD", m, d, t): the call of oob() and the await of what it returned are separated by a real suspension
+        OOB.make = lambda m, d: M[m].oob(d)
+        OOB.wait = wait
         return OOB
 
     def make_sub(self, child):
